@@ -351,6 +351,10 @@ def check_fprog(case, ctx):
         if not case.get('leadblank'):
             text = text.lstrip('\n')
         check_text(text, ctx, case, ['population:fprog'])
+        # the same file with an IBM `@PROCESS` directive line in front (IFS sources carry such lines; the input
+        # sanitiser removes them before parsing): every node must still be recorded at the lines of the ORIGINAL text
+        check_text('@PROCESS NOCHECK\n' + text, ctx, dict(case, variant='ibm-directive-line'),
+                   ['population:fprog', 'variant:ibm-directive-line'], frontends=('fp',))
 
 
 def corpus_files():
